@@ -203,6 +203,12 @@ def _r3(model, res, m):
                 v = guards.const_number(n.left, consts)
                 if v is not None:
                     radix.append((src(n), v))
+            if isinstance(n, (ast.BinOp, ast.AugAssign)) and isinstance(n.op, ast.Mult):
+                # Horner's scheme:  number = number * 26 + digit
+                for side in ((n.left, n.right) if isinstance(n, ast.BinOp) else (n.value,)):
+                    v = guards.const_number(side, consts)
+                    if v is not None and v >= 2:
+                        radix.append((src(n), v))
             if isinstance(n, ast.AugAssign) and isinstance(n.op, (ast.Mod, ast.FloorDiv)):
                 v = guards.const_number(n.value, consts)
                 if v is not None:
@@ -233,6 +239,17 @@ def _r3(model, res, m):
             ords = [n for n in walk_no_defs(f) if isinstance(n, ast.Call) and sa.call_name(n) == 'ord']
             okm = bool(finds) or bool(ords)
             res.ob('R3', '%s:%s' % (m.name, fname), 'letters are mapped through the alphabet constant', okm)
+            # bijective numeration has no zero digit: a letter contributes its position in the alphabet plus one (A = 1 .. Z = 26)
+            for fnd in finds:
+                par = m.parent(fnd)
+                plus1 = isinstance(par, ast.BinOp) and isinstance(par.op, ast.Add) and any(
+                    isinstance(x, ast.Constant) and x.value == 1 for x in (par.left, par.right))
+                res.ob('R3', '%s:%s' % (m.name, fname), 'letter value is %s + 1' % src(fnd), plus1)
+                if not plus1:
+                    res.violation('R3', '%s:%s:zero-digit' % (m.name, fname), m.where(fnd),
+                                  'a letter contributes %s (A = 0) to the column number: column labels are bijective base-26 (A = 1 .. Z = 26, no '
+                                  'zero digit), so with a zero digit labels of three or more letters collide with shorter ones whatever offset '
+                                  'is added afterwards' % src(fnd), func=fname)
             # upper-cased before the lookup
             ups = [n for n in walk_no_defs(f) if isinstance(n, ast.Call) and isinstance(n.func, ast.Attribute) and n.func.attr == 'upper']
             oku = bool(ups) or not finds
